@@ -20,8 +20,8 @@ from ..core import pool
 
 def _short_busy_timeout():
     import sqlite3
-    if getattr(sqlite3.connect, '_vf_wrapped', False):
-        return
+    if getattr(sqlite3.connect, '_vf_wrapped', False) or os.environ.get('FSG_SERVER'):
+        return      # (under the shim sleeps return at once: the full busy budget costs no time)
     real = sqlite3.connect
 
     def connect(*a, **k):
